@@ -12,6 +12,7 @@ from vlib.runner import SubProp, Violation
 from mir_eval import beat, chord, hierarchy, multipitch, onset, pattern, segment, transcription
 
 PROPERTY_ID = "C06"
+SCALE = (3, 2)   # budget multiplier (quick, thorough) applied to the n=(...) of every generated sub-property
 LEVEL = "exploration"
 RULE = ("pairs (a, b) valid in both roles (same span from 0 for segment/hierarchy, same time base for multipitch, beta = 1) on exact lattices with "
         "windows / frame sizes drawn; metric(a, b) is compared with metric(b, a): precision <-> recall, over <-> under, ref-to-est <-> est-to-ref, "
